@@ -10,8 +10,10 @@
    (R1) a cell / instance whose display name is already taken by an earlier sibling is named by
         its identifier (finding C05-K12): the name is the display name OR the identifier;
    (R2) (member p z) with z < 0 counts from the end (Python indexing): [py_index];
-   (R3) an instance without viewRef has no reference (finding C05-K14);
-   (R4) of several instanceRef in one portRef the last one counts.
+   (R3) of several instanceRef in one portRef the last one counts;
+   (R4) the status, properties and comments written inside the design construct are not kept.
+   An instance has a viewRef, an array port a size >= 1, a file at most one design construct: a
+   document that lacks one of these denotes nothing (and is refused by the reader).
    No proofs in this file. *)
 From Coq Require Import String.
 From Coq Require Import List NArith ZArith Bool.
@@ -55,7 +57,7 @@ Definition denote_prop (args : list sexp) (p : nvprop) : Prop :=
 (* ---- ports ---- *)
 Inductive decl_port_head : sexp -> str -> option str -> N -> bool -> Prop :=
 | dp_scalar nd i o : decl_nd nd i o -> decl_port_head nd i o 1%N false
-| dp_array k nd a i o z : is_kw "array" k = true -> decl_nd nd i o -> int_tok a = Some z ->
+| dp_array k nd a i o z : is_kw "array" k = true -> decl_nd nd i o -> int_tok a = Some z -> (1 <= z)%Z ->
                           decl_port_head (SList [k; nd; Atom a]) i o (Z.to_N z) true.
 
 Definition dir_of (rest : list sexp) : N :=
@@ -86,7 +88,7 @@ Definition denote_inst (F : list nvlib) (curlib curcell : str) (args : list sexp
     (in_name I = display (in_ident I) o \/ in_name I = in_ident I) /\                     (* R1 *)
     Forall2 denote_prop (sel "property" rest) (in_props I) /\
     match sel "viewref" rest with
-    | [] => in_ref I = None                                                               (* R3 *)
+    | [] => False
     | vargs :: _ => exists li ci, in_ref I = Some (li, ci) /\ refers F curlib curcell vargs li ci
     end.
 
@@ -111,7 +113,7 @@ Definition port_pin (ports : list nvport) (p : str) (z : Z) (pi : str) (k : N) :
 
 Definition denote_pin (F : list nvlib) (ports : list nvport) (insts : list nvinst) (args : list sexp) (x : pd) : Prop :=
   exists tgt rest p z, args = tgt :: rest /\ decl_target tgt p z /\
-    match last_instref rest None with                                                     (* R4 *)
+    match last_instref rest None with                                                     (* R3 *)
     | None => exists pi k, x = PTop pi k /\ port_pin ports p z pi k
     | Some i => exists I li ci D pi k, x = PInst (in_ident I) pi k /\ In I insts /\ lower (in_ident I) = lower i /\
                   in_ref I = Some (li, ci) /\ lookup_cell F li ci = Some D /\ port_pin (ce_ports D) p z pi k
@@ -160,31 +162,24 @@ Definition denote_lib (conn : list (net pd) -> list (entry pd) -> Prop)
   exists nd rest o, args = nd :: rest /\ decl_nd nd (li_ident L) o /\ li_name L = display (li_ident L) o /\
     Forall2 (denote_cell conn F (li_ident L)) (sel "cell" rest) (li_cells L).
 
-(* (design nd (cellRef x (libraryRef y))): the top instance references the cell of the result
-   whose identifiers are x / y case-insensitively *)
+(* (design nd (cellRef x (libraryRef y)) ..): the top instance references the cell of the result
+   whose identifiers are x / y case-insensitively; what follows the cellRef is not kept (R4) *)
 Definition denote_top (F : list nvlib) (args : list sexp) (t : nvtop) : Prop :=
-  exists nd k1 x k2 y junk more tl o, args = nd :: SList (k1 :: Atom x :: SList (k2 :: Atom y :: junk) :: more) :: tl /\
+  exists nd k1 x k2 y tl o, args = nd :: SList [k1; Atom x; SList [k2; Atom y]] :: tl /\
+    is_kw "cellref" k1 = true /\ is_kw "libraryref" k2 = true /\
     decl_nd nd (tp_ident t) o /\ tp_name t = display (tp_ident t) o /\
     lower (tp_lib t) = lower y /\ lower (tp_cell t) = lower x /\
     exists D, lookup_cell F (tp_lib t) (tp_cell t) = Some D.
 
-(* items of the body up to (and including) the first design construct: nothing after it is read *)
-Fixpoint upto_design (l : list sexp) : list sexp :=
-  match l with
-  | [] => []
-  | x :: l' => match kw_of x with
-               | Some (k, _) => if kweq k "design" then [x] else x :: upto_design l'
-               | None => x :: upto_design l'
-               end
-  end.
-
+(* every library / external item of the body, wherever it stands; at most one design *)
 Definition denote_file_with (conn : list (net pd) -> list (entry pd) -> Prop) (d : sexp) (n : nvfile) : Prop :=
   exists e nd ver lvl km items o, d = SList (e :: nd :: ver :: lvl :: km :: items) /\
     decl_nd nd (nf_ident n) o /\ nf_name n = display (nf_ident n) o /\
-    Forall2 (denote_lib conn (nf_libs n)) (lib_items (upto_design items)) (nf_libs n) /\
-    match sel "design" (upto_design items) with
+    Forall2 (denote_lib conn (nf_libs n)) (lib_items items) (nf_libs n) /\
+    match sel "design" items with
     | [] => nf_top n = None
-    | dargs :: _ => exists t, nf_top n = Some t /\ denote_top (nf_libs n) dargs t
+    | [dargs] => exists t, nf_top n = Some t /\ denote_top (nf_libs n) dargs t
+    | _ :: _ :: _ => False
     end.
 
 (* what the reader does with the nets of a cell, stated on the denoted nets *)
@@ -216,6 +211,6 @@ Definition lib_nets_ok (largs : list sexp) : bool :=
   match largs with _ :: rest => forallb cell_nets_ok (sel "cell" rest) | [] => true end.
 Definition supported (d : sexp) : bool :=
   match d with
-  | SList (_ :: _ :: _ :: _ :: _ :: items) => forallb lib_nets_ok (lib_items (upto_design items))
+  | SList (_ :: _ :: _ :: _ :: _ :: items) => forallb lib_nets_ok (lib_items items)
   | _ => true
   end.
